@@ -55,7 +55,7 @@ ASSUME = ['small scope: 5 fittable parameters (4 model, 1 observation), 3 derive
           'letters keep values and bounds positive so that log10 is defined (non-positive bounds in log mode are out of scope)',
           'the declared order of parameters (model components in collection order, then observation) is taken from the freshly built objects',
           'numpy / python floats trusted; priors are immutable after construction',
-          'between a settings change and the next compile_params the views are not constrained (observed only after compile_params / update_model)']
+          'between a settings change and the next compile_params only the mutual agreement of the views is demanded (which compiled set-up they describe is observed after compile_params / update_model)']
 
 RT = 1e-12
 WN = [1000.0, 2000.0, 3000.0, 4000.0]
@@ -578,6 +578,32 @@ def hist_fn(case):
         r.check(after['compiled'] == before['compiled'] and after['table'] == before['table'],
                 'update-keeps-setup', 'update/changes-compiled-setup')
     if oname != 'compile_params':
+        if after['compiled'] is not None:
+            # between a settings change and the next compile_params the views still describe the last compiled
+            # set-up: WHICH set-up is not demanded here, but the views agree with one another at every moment
+            try:
+                gv = real_views(w[2])
+            except Exception as e:
+                r.check(False, 'consistency', 'consistency/views-raise-before-recompile/%s' % type(e).__name__,
+                        exc=repr(e), op=op)
+                return r
+            n_ = len(gv['names'])
+            r.check(len(gv['values']) == n_ and len(gv['bounds']) == n_ and len(gv['priors']) == n_, 'consistency',
+                    'consistency/lengths-before-recompile', names=gv['names'], values=gv['values'])
+            pv_ = dict((p_[0], p_[5]) for p_ in after['params'])
+            for i, n in enumerate(gv['names'][:len(gv['prior_log'])]):
+                r.check(n.startswith('log_') == gv['prior_log'][i], 'consistency',
+                        'consistency/name-prefix-vs-reported-prior/before-recompile', name=n, prior=gv['priors'][i],
+                        op=op)
+                k_ = strip(n)
+                if k_ in pv_ and i < len(gv['values']) and pv_[k_] is not None:
+                    try:
+                        want_v = math.log10(pv_[k_]) if gv['prior_log'][i] else pv_[k_]
+                    except (ValueError, TypeError):
+                        continue
+                    r.check(feq(gv['values'][i], want_v), 'consistency',
+                            'consistency/value-space-vs-reported-prior/before-recompile', name=n, got=gv['values'][i],
+                            param_value=pv_[k_], prior=gv['priors'][i], op=op)
         return r
 
     # ---- observables after compile_params --------------------------------------------------
@@ -634,6 +660,79 @@ def hist_fn(case):
 
 
 # ----------------------------------------------------------------------------------------------
+# observations that expose only part of the interface: a derived quantity but nothing to fit, something to fit but
+# nothing derived, or neither - the compiled set-up lists every enabled fitted / derived parameter of the model AND
+# of the observation whatever else the observation exposes
+# ----------------------------------------------------------------------------------------------
+def _partial_obs(kind):
+    from taurex.data.spectrum import ArraySpectrum
+    from taurex.core import fitparam, derivedparam
+
+    class DerivedOnly(ArraySpectrum):
+        @derivedparam(param_name='obs_d', param_latex='$d_{obs}$', compute=False)
+        def obsD(self):
+            return 0.25
+
+    class FitOnly(ArraySpectrum):
+        def __init__(self, arr):
+            self._scale = 1.0
+            ArraySpectrum.__init__(self, arr)
+
+        @fitparam(param_name='obs_scale', param_latex='$s_{obs}$', default_mode='linear', default_fit=False,
+                  default_bounds=[0.5, 2.0])
+        def obsScale(self):
+            return self._scale
+
+        @obsScale.setter
+        def obsScale(self, value):
+            self._scale = value
+
+    return {'derived-only': DerivedOnly, 'fit-only': FitOnly, 'plain': ArraySpectrum, 'both': _obs_class()}[kind]
+
+
+PARTIAL_OPS = [['enable_derived', 'obs_d'], ['disable_derived', 'obs_d'], ['enable_derived', 'mu'], ['disable_derived', 'mu'],
+               ['enable_fit', 'obs_scale'], ['disable_fit', 'obs_scale'], ['enable_fit', 'T'], ['disable_fit', 'planet_radius'],
+               ['compile_params']]
+
+
+def partial_fn(case):
+    from taurex.optimizer.optimizer import Optimizer
+    r = core.R(case)
+    tm, _, _ = world()
+    wl = 10000.0 / np.array(WN)
+    obs = _partial_obs(case['obs'])(np.vstack([wl, np.ones(4) * 0.01, np.ones(4) * 1e-4]).T)
+    opt = Optimizer('c07p', obs, tm)
+    has = {'obs_d': case['obs'] in ('derived-only', 'both'), 'obs_scale': case['obs'] in ('fit-only', 'both')}
+    for op in case['hist'] + [['compile_params']]:
+        known = len(op) < 2 or has.get(op[1], True)
+        try:
+            getattr(opt, op[0])(*op[1:])
+            if not known:
+                r.check(False, 'error-raised', 'partial/no-error/%s/%s' % (op[0], case['obs']), op=op)
+        except Exception as e:
+            if known:
+                r.check(False, 'no-exception', 'partial/raised/%s/%s/%s' % (op[0], case['obs'], type(e).__name__),
+                        op=op, exc=repr(e))
+                return r
+    want_fit = [v[0] for src in (tm.fittingParameters, obs.fittingParameters) for v in src.values() if v[5]]
+    want_der = [v[0] for src in (tm.derivedParameters, obs.derivedParameters) for v in src.values() if v[3]]
+    want_dv = [float(v[2]()) for src in (tm.derivedParameters, obs.derivedParameters) for v in src.values() if v[3]]
+    got_fit = [strip(n) for n in opt.fit_names]
+    r.check(sorted(got_fit) == sorted(want_fit), 'compiled-view', 'partial/fitted-names/%s' % case['obs'], got=got_fit,
+            want=want_fit)
+    got_der = list(opt.derived_names)
+    r.check(sorted(got_der) == sorted(want_der), 'compiled-view', 'partial/derived-names/%s' % case['obs'], got=got_der,
+            want=want_der)
+    if sorted(got_der) == sorted(want_der):
+        gd = dict(zip(got_der, [float(v) for v in opt.derived_values]))
+        r.check(all(feq(gd[n], v) for n, v in zip(want_der, want_dv)), 'compiled-view',
+                'partial/derived-values/%s' % case['obs'], got=gd, want=want_dv)
+    r.observe(got_fit, got_der)
+    r.nontrivial = bool(want_der or want_fit)
+    return r
+
+
+# ----------------------------------------------------------------------------------------------
 # alphabets and exploration
 # ----------------------------------------------------------------------------------------------
 def alphabet(params, derived, priors=('U', 'LU', 'G'), errors='few', updates=('v1', 'v2'), spelled=False):
@@ -685,6 +784,10 @@ def run_phase(ctx, name, ops, depth, roots=([],), max_states=None):
 
 def explore(ctx):
     quick = ctx.tier != 'thorough'
+    import itertools
+    pc = [{'obs': ob, 'hist': [list(o_) for o_ in h]} for ob in ('derived-only', 'fit-only', 'plain', 'both')
+          for k_ in range(0, 3 if quick else 4) for h in itertools.product(PARTIAL_OPS, repeat=k_)]
+    ctx.run_cases('partial_fn', pc, phase='partial-observation')
     # writes from outside the optimiser interleaved with (repeated, identical) update_model vectors
     ext = [['enable_fit', 'T'], ['compile_params'], ['update_model', 'v1'], ['update_model', 'v2'],
            ['external_set', 'planet_radius', 'x1'], ['external_set', 'T', 'x1'], ['external_set', 'T', 'x2']]
